@@ -97,7 +97,7 @@ class OptSim(Sim):
     PROBES = ["step_before_any_backward", "two_backwards_per_step", "step_without_zero_grad", "frozen_param_with_weight_decay",
               "param_outside_optimizer", "nesterov", "dampening", "maximize", "zero_d_param", "f32_param", "two_optimizers_overlap",
               "illegal_hyperparams_refused", "param_without_grad_skipped", "backward_fault_then_recovery",
-              "variant_pruned", "momentum_plain", "adam", "adamw", "sgd", "optimizer_recreated"]
+              "variant_pruned", "momentum_plain", "adam", "adamw", "sgd", "optimizer_recreated", "requires_grad_toggled_mid_run"]
     RULE = ("one run = parameters + 1-2 optimizers with swarm hyper-parameters and a seeded interleaving of backward/zero_grad/step events; "
             "distinct = optimizer kinds x non-default hyper-parameter set x event-kind sequence; non-trivial = at least two steps compared")
     ASSUMPTIONS = ["the gradient fed to the model at each step is the one the system accumulated (C04 decides accumulation)",
@@ -141,7 +141,7 @@ class OptSim(Sim):
         if any(not np.isfinite(t.data).all() or np.abs(t.data).max() > 1e3 for t in st.P.values() if t.data.size):
             return None            # diverged (e.g. maximize on a cubic loss): end the run before values overflow
         if len(st.P) < kn["n_params"]:
-            shape = rng.choice([(), (1,), (3,), (2, 3), (2, 2)]) if rng.random() < 0.995 else (rng.choice([257, 300]), 256)     # rarely a LARGE one (size-dependent paths)
+            shape = rng.choice([(), (1,), (3,), (2, 3), (2, 2)]) if rng.random() < 0.998 else (rng.choice([257, 300]), 256)     # rarely a LARGE one (size-dependent paths)
             dt = np.float32 if rng.random() < 0.35 else np.float64
             return {"k": "param", "id": len(st.P), "data": enc(small_values(rng, shape, dt, -2, 2, avoid_zero=True)),
                     "rg": rng.random() < 0.8, "wrap": rng.random() < 0.5}
@@ -162,6 +162,9 @@ class OptSim(Sim):
                 return {"k": "module", "params": ids}
         r = rng.random()
         oids = sorted(st.opts)
+        if rng.random() < 0.05 and st.P:
+            i = rng.choice(sorted(st.P))
+            return {"k": "set_rg", "p": i, "v": not st.P[i].requires_grad}
         if rng.random() < 0.04 and oids:
             # the optimizer object is thrown away and built again over the same parameters (checkpoint reload, lr schedule by re-creation):
             # the new instance starts from empty state
@@ -267,6 +270,14 @@ class OptSim(Sim):
             st.probes["two_optimizers_overlap"] += 1
         if any(i not in ids for i in st.P):
             st.probes["param_outside_optimizer"] += 1
+
+    def _ev_set_rg(self, st, ev):
+        p = st.P.get(ev["p"])
+        if p is None:
+            st.skipped += 1
+            return
+        st.must("C08.flag_setter_raises", f"requires_grad = {ev['v']} on a float leaf", setattr, p, "requires_grad", ev["v"])
+        st.probes["requires_grad_toggled_mid_run"] += 1
 
     def _ev_opt_recreate(self, st, ev):
         o = st.opts.get(ev["oid"])
